@@ -1,21 +1,68 @@
 (* Entry points for the correspondence: the well-formedness checker of
-   theories/Mut/WF.v ([wf_world_b w = true <-> WFw w], [wf_b t = true <-> WF t]),
-   so the harness can evaluate the invariant on every state of a model run. *)
+   theories/Mut/WF.v ([wf_world_b w = true <-> WFw w], [wf_b t = true <-> WF t])
+   evaluated on every state of a model run of a CaseMut case, and the theorem that
+   every such flag is [true] (C01 over the guarded step [step_chk] of CaseMut.v). *)
 From Coq Require Import List ZArith Bool Arith.
-From NT Require Import Sx Rose Surgery Machine WF.
+From NT Require Import Sx Rose Surgery Machine WF Invariant CaseMut.
 Import ListNotations.
 
 Definition wf_world_b : world -> bool := WF.wf_world_b.
 Definition wf_tree_b : tstate -> bool := WF.wf_b.
 
-(* WF of every state along a history (one boolean per step) *)
+Theorem wf_world_b_sound w : wf_world_b w = true <-> WFw w.
+Proof. exact (wf_world_b_WFw w). Qed.
+
+(* WF of every state along a history (one boolean per step), unguarded and guarded steps *)
 Fixpoint wf_trace (ops : list op) (w : world) : list bool :=
   match ops with
   | [] => []
   | o :: rest => let w' := snd (step w o) in wf_world_b w' :: wf_trace rest w'
   end.
 
-Definition sx_wf_trace (ops : list op) (w : world) : sx := sx_list sx_bool (wf_trace ops w).
+Fixpoint wf_trace_chk (ops : list op) (w : world) : list bool :=
+  match ops with
+  | [] => []
+  | o :: rest => let w' := snd (step_chk w o) in wf_world_b w' :: wf_trace_chk rest w'
+  end.
 
-Theorem wf_world_b_sound w : wf_world_b w = true <-> WFw w.
-Proof. exact (wf_world_b_WFw w). Qed.
+Definition wf_flags (c : mcase) : list bool :=
+  match c with
+  | CHist ops => wf_trace_chk ops empty_world
+  | CAlts setup alts =>
+      let w := run_chk setup empty_world in
+      wf_trace_chk setup empty_world ++ map (fun o => wf_world_b (snd (step_chk w o))) alts
+  end.
+
+(* the observation: one 0/1 per state *)
+Definition run_wf (c : mcase) : sx := sx_list sx_bool (wf_flags c).
+
+(* ---- C01 for the guarded step ---- *)
+Lemma WFw_step_chk w o : WFw w -> WFw (snd (step_chk w o)).
+Proof. intros H. unfold step_chk. destruct (op_live w o); [now apply WFw_step|exact H]. Qed.
+
+Lemma WFw_run_chk ops : forall w, WFw w -> WFw (run_chk ops w).
+Proof.
+  induction ops as [|o ops IH]; intros w H; [exact H|]. unfold run_chk. cbn [fold_left]. apply IH. now apply WFw_step_chk.
+Qed.
+
+Lemma wf_trace_chk_true ops : forall w, WFw w -> forallb (fun b => b) (wf_trace_chk ops w) = true.
+Proof.
+  induction ops as [|o ops IH]; intros w H; [reflexivity|]. cbn [wf_trace_chk forallb].
+  assert (H' := WFw_step_chk w o H). rewrite (proj2 (wf_world_b_sound _) H'). cbn [andb]. now apply IH.
+Qed.
+
+Lemma wf_trace_true ops : forall w, WFw w -> forallb (fun b => b) (wf_trace ops w) = true.
+Proof.
+  induction ops as [|o ops IH]; intros w H; [reflexivity|]. cbn [wf_trace forallb].
+  assert (H' := WFw_step w o H). rewrite (proj2 (wf_world_b_sound _) H'). cbn [andb]. now apply IH.
+Qed.
+
+(* every flag of every case is true: a 0 in [run_wf] can only come from the implementation side *)
+Theorem wf_flags_true c : forallb (fun b => b) (wf_flags c) = true.
+Proof.
+  destruct c as [ops|setup alts]; cbn [wf_flags].
+  - apply wf_trace_chk_true, WFw_empty.
+  - rewrite forallb_app. apply andb_true_iff. split; [apply wf_trace_chk_true, WFw_empty|].
+    apply forallb_forall. intros b Hb. apply in_map_iff in Hb. destruct Hb as (o & <- & _).
+    apply wf_world_b_sound. apply WFw_step_chk. apply WFw_run_chk, WFw_empty.
+Qed.
